@@ -80,8 +80,19 @@ ReadId ==
 
 \* outcome for the bencoded bodies of extended messages 0, 1, 2.
 \*   "msg": must decode; "error": must be refused; "either": both acceptable
+\* "kv:<key>:<shape>": a dictionary in which one key the decoder knows carries a value of an unexpected shape
+\* (empty string, one-byte strings, integers out of range, lists, dictionaries)
+KVKeys(sub) == CASE sub = 0 -> {"m", "p", "reqq", "v", "upload_only", "e", "ipv4", "ipv6", "metadata_size"}
+                 [] sub = 1 -> {"added", "added.f", "added6", "added6.f", "dropped", "dropped6"}
+                 [] sub = 2 -> {"msg_type", "piece", "total_size"}
+                 [] OTHER -> {}
+KVShapes == {"estr", "str0", "strnul", "str1", "strx", "int0", "int1", "intneg", "intbig", "list", "dict", "liststr", "dictint", "dictstr"}
+KVBody(k, sh) == "kv:" \o k \o ":" \o sh
+KVBodies(sub) == {KVBody(k, sh) : k \in KVKeys(sub), sh \in KVShapes}
+
 BencOutcome(sub, body) ==
   CASE body \in {"valid", "trailing", "dupkeys"}            -> "msg"
+    [] body \in KVBodies(sub) -> "either"
     [] body \in {"truncated", "nondict", "hugestr", "filler", "empty"} -> "error"
     [] body \in {"deep", "hugeint", "wrongtype", "unknownkeys", "negint", "pexshortflags", "pexoddlen"} -> "either"
     [] OTHER -> "error"
